@@ -59,13 +59,16 @@ func (c12) Gen(r *rand.Rand, tier string, run int) *core.Case {
 	}
 	if c.Batch == "stall" {
 		c.Ops = append(c.Ops, core.Op{Kind: "flood", Actor: 300, X: int64(r.Uint64() >> 2)})
+	} else if r.IntN(30) == 0 {
+		at := r.IntN(len(c.Ops) + 1)
+		c.Ops = append(c.Ops[:at], append([]core.Op{{Kind: "deepsig", Actor: 300, X: int64(r.Uint64() >> 2)}}, c.Ops[at:]...)...)
 	} else if r.IntN(40) == 0 {
 		// entries of the directory that are, together, more than a reply holds
 		at := r.IntN(len(c.Ops) + 1)
 		c.Ops = append(c.Ops[:at], append([]core.Op{{Kind: "bloat", Actor: 300, X: int64(r.Uint64() >> 2)}}, c.Ops[at:]...)...)
 	}
 	for _, op := range c.Ops {
-		if (op.Kind == "nested" || op.Kind == "bloat") && c.Batch != "stall" {
+		if (op.Kind == "nested" || op.Kind == "bloat" || op.Kind == "deepsig") && c.Batch != "stall" {
 			// megabyte frames: let them through in large pieces
 			c.Net.Capacity, c.Net.ReadMode = 0, "greedy"
 		}
@@ -610,6 +613,27 @@ func c12frames(st *c12state, cat string, r *rand.Rand) [][]byte {
 			b.U32(4096)
 		}
 		return [][]byte{ref.NewFrame(uint8(pick32(ref.Call, ref.Post)), st.probeSvc, o, pick32(5, 6, 6), id(), b.Bytes()).Encode()}
+	case "deepsig":
+		// a dynamic value whose signature nests lists as deep as a frame
+		// allows (two bytes per level), or announces a count out of
+		// proportion with its four bytes of data
+		_, o := target()
+		var b ref.Buf
+		b.ValStr("level")
+		switch k := int(r.Uint32()) % 8; {
+		case k < 6:
+			depth := []int{300, 30000, 300, 30000, 400000, 4000000}[k]
+			b.Str(strings.Repeat("[", depth) + "i" + strings.Repeat("]", depth))
+			b.U32(0)
+		default:
+			// elements that take no room on the wire
+			b.Str([]string{"[v]", "[[v]]"}[k-6])
+			b.U32(0xfffffff0)
+			if k == 7 {
+				b.U32(0xfffffff0)
+			}
+		}
+		return [][]byte{ref.NewFrame(uint8(pick32(ref.Call, ref.Call, ref.Post)), st.probeSvc, o, 6, id(), b.Bytes()).Encode()}
 	case "flood":
 		n := 10 + r.IntN(290)
 		var out [][]byte
